@@ -158,7 +158,7 @@ class Gen:
     # ---------------------------------------------------------------- expressions
     def readable(self):
         """identifiers that may be read without TDZ/ReferenceError at this point"""
-        vs = self.visible(lambda v: True)
+        vs = self.visible(lambda v: not (v.fn or v.cls or v.kind in ("fn", "class")) or "fn_to_string" not in self.avoid)
         if self.expr_writes is not None and "rw_same_expr" in self.avoid:
             vs = [v for v in vs if v.name not in self.expr_writes]
         return vs
@@ -261,8 +261,10 @@ class Gen:
             return "typeof %s" % self.fresh("undeclared")
         return "typeof %s" % self.expr(d)
 
-    def pick_writable(self):
+    def pick_writable(self, lexical_only=False):
         vs = self.writable()
+        if lexical_only:
+            vs = [v for v in vs if v.kind == "let"]
         if not vs:
             return None
         v = self.r.choice(vs)
@@ -270,12 +272,14 @@ class Gen:
             self.expr_writes.add(v.name)
         return v
 
-    def assign_target(self, d):
+    def assign_target(self, d, lexical_only=False):
         """returns a simple assignment target expression"""
         r = self.r
         k = r.weighted([("var", 55), ("prop", 25), ("computed", 15), ("constvar", 3), ("undeclared", 2)])
+        if lexical_only and k in ("constvar", "undeclared"):
+            k = "prop"
         if k == "var":
-            v = self.pick_writable()
+            v = self.pick_writable(lexical_only)
             if v:
                 return v.name
             k = "prop"
@@ -320,7 +324,10 @@ class Gen:
         k = r.weighted([("=", 45), ("op", 35), ("logic", 20)])
         if k == "logic" and "logical_assign" in self.avoid:
             k = "op"
-        t = self.assign_target(d)
+        if k == "logic" and "logical_assign_nonlexical" in self.avoid:
+            t = self.assign_target(d, lexical_only=True)
+        else:
+            t = self.assign_target(d)
         if k == "=":
             return "(%s = %s)" % (t, self.expr(d))
         if k == "op":
@@ -436,8 +443,12 @@ class Gen:
         r = self.r
         n = r.below(4)
         items = []
+        allow_spread = r.chance(0.5) or "v8_accessor_spread_order" not in self.avoid
+        allow_accessor = (not allow_spread) or "v8_accessor_spread_order" not in self.avoid
         for _ in range(n):
             k = r.below(12)
+            if (k in (7, 8) and not allow_accessor) or (k == 9 and not allow_spread):
+                k = 0
             if k < 6:
                 items.append("%s: %s" % (self.prop_key(), self.expr(d + 1)))
             elif k == 6:
@@ -652,7 +663,7 @@ class Gen:
     def e_funcexpr(self, d):
         r = self.r
         if self.fn_depth >= 3 or self.budget < 30:
-            return "(() => %s)" % self.leaf()
+            return "(() => %s)()" % self.leaf()
         k = r.below(4)
         ptext, names, simple = self.params("function")
         if k == 0:
@@ -690,7 +701,7 @@ class Gen:
         else:
             self.use("arrow")
             f = "((%s) => %s)" % (ptext, self.function_body("arrow", names))
-        if r.chance(0.75):
+        if r.chance(0.75) or "fn_to_string" in self.avoid:
             return "%s(%s)" % (f, self.args(d, r.below(3)))
         return f
 
@@ -857,7 +868,7 @@ class Gen:
             s.vars[nm] = Var(nm, "var", depth=self.fn_depth)
             self.use("var")
             return "var %s%s;" % (nm, " = " + init if init is not None else "")
-        nm = self.new_let_name()
+        nm = self.new_let_name() if (k == "let" or "assign_const_in_tdz" not in self.avoid) else self.fresh(r.choice(["v", "v", "o", "a"]))
         if k == "let":
             init = self.init_for(nm) if r.chance(0.85) else None
             self.declare(nm, "let")
@@ -1106,7 +1117,8 @@ class Gen:
                 s += " catch ({name: %s}) { print('caught', %s); }" % (n1, n1)
             else:
                 e = self.fresh("e")
-                self.declare(e, "let")
+                if "error_to_string" not in self.avoid:
+                    self.declare(e, "let")
                 s += " catch (%s) { print('caught', %s); %s }" % (e, e, self.stmt() if r.chance(0.4) else "")
             self.pop_scope()
         if not has_catch or r.chance(0.4):
@@ -1302,12 +1314,14 @@ class Gen:
             strict, self.args(2, self.r.below(4)))
 
     # ---------------------------------------------------------------- program
-    def program(self, nstmts=None, wrap_main=False):
+    def program_parts(self, nstmts=None):
+        """returns (directive or None, [statements], final expression or None)"""
         r = self.r
-        out = []
+        directive = None
         if self.strict_program:
-            out.append("'use strict';")
+            directive = "'use strict';"
             self.ctx.strict = True
+        out = []
         n = nstmts or 3 + r.below(8)
         for _ in range(n):
             s = self.stmt()
@@ -1316,15 +1330,43 @@ class Gen:
             out.append(s)
             if self.budget <= 0:
                 break
-        if r.chance(0.5):
-            out.append("%s;" % self.guard_stmt_expr(self.full_expr(1)))
-        return "\n".join(out)
+        final = None
+        if r.chance(0.5) or "stmt_completion_value" in self.avoid:
+            final = self.full_expr(1)
+        return directive, out, final
+
+    def program(self, nstmts=None):
+        d, stmts, final = self.program_parts(nstmts)
+        return render_plain(d, stmts, final)
 
 
-def generate(seed, index, avoid=(), strict=None, features=None, budget=None, max_depth=5, label="core"):
+def render_plain(directive, stmts, final):
+    out = ([directive] if directive else []) + list(stmts)
+    if final is not None:
+        out.append("(%s);" % final)
+    return "\n".join(out)
+
+
+def render_main(directive, stmts, final, call=True):
+    """the same program as the body of a function `__main` (entered by the VM's call opcode or by the host)"""
+    body = ([directive] if directive else []) + list(stmts)
+    if final is not None:
+        body.append("return (%s);" % final)
+    src = "function __main() {\n%s\n}" % "\n".join(body)
+    if call:
+        src += "\n__main();"
+    return src
+
+
+def generate_parts(seed, index, avoid=(), strict=None, features=None, budget=None, max_depth=5, label="core"):
     rng = Rng(seed, label, index)
     if strict is None:
         strict = rng.chance(0.3)
-    g = Gen(rng, avoid=avoid, strict=strict, features=features, budget=budget or rng.choice([60, 120, 220, 400]), max_depth=max_depth)
-    src = g.program()
-    return src, g.used
+    g = Gen(rng, avoid=avoid, strict=strict, features=features, budget=budget or rng.choice([40, 80, 150, 250]), max_depth=max_depth)
+    d, stmts, final = g.program_parts()
+    return (d, stmts, final), g.used
+
+
+def generate(seed, index, avoid=(), strict=None, features=None, budget=None, max_depth=5, label="core"):
+    parts, used = generate_parts(seed, index, avoid, strict, features, budget, max_depth, label)
+    return render_plain(*parts), used
